@@ -1,6 +1,6 @@
 # Schema-driven X.691 aligned PER reference over the reflect-extracted NGAP schema (draft of Spec/X691.v + tags_to_asn1)
 import json
-from x691 import W, Frag, cwn, lendet, enc_int, enc_octets, enc_bits, enc_enum, enc_len
+from x691 import W, Frag, cwn, lendet, lv_octets, enc_int, enc_octets, enc_bits, enc_enum, enc_len
 
 SCHEMA=json.load(open(__import__('os').path.join(__import__('os').path.dirname(__import__('os').path.abspath(__file__)),'ngap_schema_golden.json')))
 TYPES=SCHEMA['types']
@@ -74,7 +74,7 @@ def enc(w, tname, p, v):
                 if fp['refValue'] is None or fp['refValue']!=p['_ref']: raise Refuse('open type ref')
                 iw=W(); enc(iw, fs[pres]['type'], fp, v[pres])
                 data=bytes.fromhex(iw.out())   # padded, at least one octet
-                lendet(w,len(data)); w.align(); w.bytes_(data)
+                lv_octets(w,data)
             else:
                 if p['valueUB'] is None: raise Refuse('choice ub')
                 if pres-1>p['valueUB']: raise Refuse('choice ext')
